@@ -1,12 +1,23 @@
 package engine
 
+import "time"
+
 // Shrink minimises a failing case by delta debugging on its explicit step
 // lists (rapid's own shrinking works on the random bit stream, which is slow
 // for state-dependent generators). A candidate is kept when it still produces
 // a finding of one of the classes in `owned`. budget bounds re-executions.
 func Shrink(c *Case, owned map[string]bool, budget int) *Case {
+	// failures that show as a time-out are expensive to re-execute: use a
+	// short sentinel time-out while shrinking and stop after 90 s in any case
+	// (a candidate that merely became slow is then not accepted as failing:
+	// lateness without proof is an Inconclusive panic, handled by Exec)
+	oldTimeout := SyncTimeout
+	SyncTimeout = 6 * time.Second
+	defer func() { SyncTimeout = oldTimeout }()
+	stopAt := time.Now().Add(90 * time.Second)
 	fails := func(x *Case) bool {
-		if budget <= 0 {
+		if budget <= 0 || time.Now().After(stopAt) {
+			budget = 0
 			return false
 		}
 		// a candidate must fail twice in a row: prefers reproductions that do
